@@ -3,7 +3,7 @@
 """
 
 from abc import ABC, abstractmethod
-from numpy import array, log, exp, pi, sqrt, ndarray, logaddexp
+from numpy import array, atleast_1d, log, exp, pi, sqrt, ndarray, logaddexp
 
 
 class Likelihood(ABC):
@@ -169,7 +169,7 @@ class GaussianLikelihood(Likelihood):
         # (two factors of 1/sigma rather than 1/sigma**2, which leaves the float
         # range for sigma beyond 1e-154 .. 1e154 although the gradient does not)
         dL_dF = ((self.y - predictions) * self.inv_sigma) * self.inv_sigma
-        return dL_dF @ predictions_jacobian
+        return atleast_1d(dL_dF) @ predictions_jacobian
 
 
 class CauchyLikelihood(Likelihood):
@@ -217,7 +217,7 @@ class CauchyLikelihood(Likelihood):
     ) -> ndarray:
         z = (self.y - predictions) * self.inv_gamma
         dL_dF = 2 * self.inv_gamma * z / (1 + z**2)
-        return dL_dF @ predictions_jacobian
+        return atleast_1d(dL_dF) @ predictions_jacobian
 
 
 class LogisticLikelihood(Likelihood):
@@ -266,7 +266,7 @@ class LogisticLikelihood(Likelihood):
     ) -> ndarray:
         z = (self.y - predictions) * self.inv_scale
         dL_dF = (2 / (1 + exp(-z)) - 1) * self.inv_scale
-        return dL_dF @ predictions_jacobian
+        return atleast_1d(dL_dF) @ predictions_jacobian
 
 
 def jacobian_not_given(*args):
